@@ -431,11 +431,33 @@ def Obs.thrValidL : List (String × Obs) → Bool
   | c :: cs => c.2.thrValid && Obs.thrValidL cs
 end
 
+/-- the validation happens where components are CONSTRUCTED — before `HostObservation.__init__` truncates its lists to `num_*`: every
+listed application is constructed with the host's thresholds (so one listed application suffices, even with `num_applications: 0`),
+every listed folder constructs its listed files and its padding files with them, every listed and every automatically added
+interface likewise; the host's own padding slots are constructed without a thresholds dictionary -/
+def HostCfg.ctorThrValid (h : HostCfg) (e : HostEff) : Bool :=
+  (h.apps.isEmpty || (thrApp e.thr).valid) &&
+  h.folders.all (fun f => (f.files.isEmpty && e.numFiles.getD 0 == 0) || (thrFile e.thr).valid) &&
+  ((h.nics.isEmpty && e.numNics.getD 0 == 0) || (thrNmne e.thr).valid)
+
+def NodesCfg.ctorThrValid (thr : ThrCfg) (c : NodesCfg) : Bool := c.hosts.all (fun h => h.ctorThrValid (h.eff thr c))
+
+mutual
+def RawObs.ctorThrValid (thr : ThrCfg) : RawObs → Bool
+  | .nodes c => c.ctorThrValid thr
+  | .nested cs => RawObs.ctorThrValidL thr cs
+  | _ => true
+def RawObs.ctorThrValidL (thr : ThrCfg) : List (String × RawObs) → Bool
+  | [] => true
+  | c :: cs => c.2.ctorThrValid thr && RawObs.ctorThrValidL thr cs
+end
+
 /-- `ObservationManager(config).obs` INCLUDING the constructors' threshold validation: `none` when a schema / constructor refuses
-the section (`RawObs.build`) or when some constructed component was handed a threshold triple that is not strictly ascending -/
+the section (`RawObs.build`) or when some component is CONSTRUCTED (kept or truncated away afterwards) with a threshold triple
+that is not strictly ascending -/
 def RawObs.buildV (thr : ThrCfg) (r : RawObs) : Option Obs :=
   match r.build thr with
-  | some o => if o.thrValid then some o else none
+  | some o => if r.ctorThrValid thr then some o else none
   | none => none
 
 /-! ## gymnasium `flatten` / `flatten_space` on Discrete / Dict trees (trusted library, modelled to state what it gives)
